@@ -14,6 +14,8 @@ FIRST = {
     "C05-a1": "caught (NOT ESTABLISHED: LinkedHashSet::insert gone)", "C05-a2": "missed", "C05-a3": "caught by C01/C02/C12 only",
     "C03-a1": "caught by C01/C04/C10 only (NOT ESTABLISHED)", "C03-a2": "caught by C14/C16/C17 only",
     "C13-a2": "missed", "C13-a3": "missed", "C15-a2": "caught by C01/C07 only", "C11-a1": "caught by C01/C07 only", "C11-a3": "caught by C14/C15/C21/C22 only",
+    "C23-a1": "missed (engine: a VariantIn literal matched a projection of the tested value)", "C23-a2": "caught by C06/C07/C22 only", "C23-a3": "missed",
+    "C04-a1": "caught (NOT ESTABLISHED form)", "C04-a2": "caught (NOT ESTABLISHED: store gone)", "C08-a2": "caught by C09 only", "C08-a3": "missed",
     "C26-a1": "missed", "C26-a2": "caught (NOT ESTABLISHED: whole-vector store gone)", "C26-a3": "missed",
 }
 for d in sorted(os.listdir(os.path.join(ROOT, "seeded"))):
